@@ -9,6 +9,7 @@ import re
 from ..common import digest
 
 LEVEL = "exploration"
+NEEDS_MODELS = False
 RULE = (
     "all ordered pairs (a,b) of register names of each ISA in lower/upper(/mixed) case, operands produced by the real "
     "parser; a pair is non-trivial when the two spellings differ after lower-casing (alias pairs of one family and "
